@@ -170,6 +170,7 @@ class Interp:
         self.depth = 0
         self.steps = 0
         self.trace_calls: List[str] = []
+        self.auto_decide: Optional[Callable[[Any], Optional[bool]]] = None
         self.hooks: Dict[Tuple[str, str], Callable] = {}  # (module, qualname) -> python callable(interp, args, kwargs)
         self.external: Dict[str, Callable] = {}  # dotted external name -> callable
 
@@ -186,6 +187,11 @@ class Interp:
                     return v
                 if isinstance(c, Cond) and cond.op == "not" and isinstance(cond.args[0], Cond) and c.key() == cond.args[0].key():
                     return not v
+            if self.auto_decide is not None:
+                v = self.auto_decide(cond)
+                if v is not None:
+                    self.assumptions.append(f"assumed {'true' if v else 'false'}: {cond!r}")
+                    return v
             i = len(self.taken)
             if i < len(self.decisions):
                 v = self.decisions[i]
@@ -200,6 +206,10 @@ class Interp:
             return self.decide(Cond("!=", (cond, 0)))
         if isinstance(cond, Rec):
             return True
+        if isinstance(cond, Ext):
+            return cond.sym_truth(self)
+        if isinstance(cond, SymStr):
+            return self.decide(Cond("nonempty", (cond,)))
         return bool(cond)
 
     def _decide_cond(self, c: Cond) -> Optional[bool]:
@@ -283,6 +293,8 @@ class Interp:
             return Rec(ClassRef("sys", "float_info"), {"epsilon": RF.sym("EPSILON")})
         if module == "typing":
             return Builtin("typing." + attr)
+        if module == "types" and attr == "MappingProxyType":
+            return PyCallable(lambda it, a, k: a[0])
         if module == "copy":
             return Builtin("copy." + attr)
         if module == "dataclasses":
@@ -322,6 +334,9 @@ class Interp:
         return m, m.classes[c.name]
 
     def class_mro(self, c: ClassRef) -> List[Tuple[Module, ast.ClassDef]]:
+        cache = self.repo.__dict__.setdefault("_sym_mro", {})
+        if c in cache:
+            return cache[c]
         out, seen = [], set()
 
         def rec(m, cd):
@@ -337,9 +352,16 @@ class Interp:
 
         m, cd = self.class_node(c)
         rec(m, cd)
+        cache[c] = out
         return out
 
     def is_namedtuple(self, c: ClassRef) -> bool:
+        cache = self.repo.__dict__.setdefault("_sym_nt", {})
+        if c not in cache:
+            cache[c] = self._is_namedtuple(c)
+        return cache[c]
+
+    def _is_namedtuple(self, c: ClassRef) -> bool:
         for m, cd in self.class_mro(c):
             for b in cd.bases:
                 if isinstance(b, ast.Name) and b.id == "NamedTuple":
@@ -348,6 +370,9 @@ class Interp:
 
     def class_fields(self, c: ClassRef) -> List[Tuple[str, Any]]:
         """[(name, default-node or None)] in definition order, bases first, ClassVar skipped."""
+        cache = self.repo.__dict__.setdefault("_sym_fields", {})
+        if c in cache:
+            return cache[c]
         order, info = [], {}
         for m, cd in reversed(self.class_mro(c)):
             for st in cd.body:
@@ -357,9 +382,17 @@ class Interp:
                     if st.target.id not in info:
                         order.append(st.target.id)
                     info[st.target.id] = (m, st.value)
-        return [(n, info[n]) for n in order]
+        cache[c] = [(n, info[n]) for n in order]
+        return cache[c]
 
     def find_method(self, c: ClassRef, name: str):
+        cache = self.repo.__dict__.setdefault("_sym_meth", {})
+        k = (c, name)
+        if k not in cache:
+            cache[k] = self._find_method(c, name)
+        return cache[k]
+
+    def _find_method(self, c: ClassRef, name: str):
         for m, cd in self.class_mro(c):
             for st in cd.body:
                 if isinstance(st, (ast.FunctionDef,)) and st.name == name:
@@ -491,7 +524,10 @@ class Interp:
         try:
             if isinstance(node, ast.Lambda):
                 return self.eval(node.body, env)
-            is_gen = any(isinstance(n, (ast.Yield, ast.YieldFrom)) for n in _walk_own(node))
+            is_gen = getattr(node, "_is_gen", None)
+            if is_gen is None:
+                is_gen = any(isinstance(n, (ast.Yield, ast.YieldFrom)) for n in _walk_own(node))
+                node._is_gen = is_gen
             if is_gen:
                 env["__yield__"] = []
             try:
@@ -762,6 +798,8 @@ class Interp:
         return self.binop(n.op, self.eval(n.left, env), self.eval(n.right, env), n)
 
     def binop(self, op, l, r, node=None):
+        if isinstance(op, ast.Add) and (isinstance(l, Ext) or isinstance(r, Ext)):
+            return l.sym_add(self, r, False) if isinstance(l, Ext) else r.sym_add(self, l, True)
         if isinstance(l, Unknown) or isinstance(r, Unknown):
             return Unknown(f"arith on unknown")
         if isinstance(op, ast.MatMult):
@@ -917,6 +955,10 @@ class Interp:
 
     def equal(self, l, r):
         """Python == on interpreter values: True/False or a symbolic Cond."""
+        if isinstance(l, Ext):
+            return l.sym_eq(self, r)
+        if isinstance(r, Ext):
+            return r.sym_eq(self, l)
         if isinstance(l, SymStr) or isinstance(r, SymStr):
             if isinstance(l, SymStr) and isinstance(r, SymStr) and l.text == r.text:
                 return True
@@ -1019,6 +1061,8 @@ class Interp:
                 if base.mutable:
                     raise PyRaise("AttributeError", node, attr)
                 raise
+        if isinstance(base, Ext):
+            return base.sym_getattr(self, attr)
         if isinstance(base, ClassRef):
             if attr == "__name__":
                 return base.name
@@ -1117,6 +1161,8 @@ class Interp:
             st = self.eval(n.slice.step, env) if n.slice.step else None
             if isinstance(base, Rec) and self.is_namedtuple(base.cls):
                 base = base.astuple()
+            if isinstance(base, Ext):
+                return base.sym_getitem(self, slice(lo, hi, st))
             if isinstance(base, (tuple, list, str)):
                 return base[_idx(lo) if lo is not None else None:_idx(hi) if hi is not None else None:
                             _idx(st) if st is not None else None]
@@ -1126,6 +1172,8 @@ class Interp:
         k = self.eval(n.slice, env)
         if isinstance(base, Rec) and self.is_namedtuple(base.cls):
             base = base.astuple()
+        if isinstance(base, Ext):
+            return base.sym_getitem(self, k)
         if isinstance(base, Unknown) or isinstance(k, Unknown):
             return Unknown("subscript of unknown")
         if isinstance(base, (tuple, list, str)):
@@ -1212,6 +1260,10 @@ class Interp:
     def iterate(self, v):
         if isinstance(v, Rec) and self.is_namedtuple(v.cls):
             return list(v.astuple())
+        if isinstance(v, Rec) and self.find_method(v.cls, "__iter__"):
+            return self.iterate(self.rec_op(v, "__iter__", []))
+        if isinstance(v, Ext):
+            return v.sym_iter(self)
         if isinstance(v, (tuple, list)):
             return list(v)
         if isinstance(v, (frozenset, set)):
@@ -1403,6 +1455,8 @@ class Interp:
         raise Undecided(f"builtin {name} not interpreted")
 
     def deepcopy(self, v):
+        if isinstance(v, Ext) and hasattr(v, "sym_copy"):
+            return v.sym_copy()
         if isinstance(v, Rec):
             return Rec(v.cls, {k: self.deepcopy(x) for k, x in v.f.items()}, v.mutable)
         if isinstance(v, list):
@@ -1454,6 +1508,29 @@ class Interp:
 class PyCallable:
     def __init__(self, fn):
         self.fn = fn
+
+
+class Ext:
+    """Extension value supplied by a rule (e.g. path data modelled as a command list instead of a string).
+    Subclasses override the sym_* hooks they support."""
+
+    def sym_truth(self, it):
+        raise Undecided(f"truth of {type(self).__name__}")
+
+    def sym_getitem(self, it, k):
+        raise Undecided(f"subscript of {type(self).__name__}")
+
+    def sym_iter(self, it):
+        raise Undecided(f"iteration of {type(self).__name__}")
+
+    def sym_add(self, it, other, reflected):
+        raise Undecided(f"+ on {type(self).__name__}")
+
+    def sym_eq(self, it, other):
+        return self is other
+
+    def sym_getattr(self, it, attr):
+        raise Undecided(f"attribute {attr} of {type(self).__name__}")
 
 
 class _Missing:
@@ -1575,10 +1652,12 @@ def explore(repo: Repo, fn, args: list, kwargs: Optional[dict] = None, max_paths
     """Run `fn` (a Closure/Bound/ClassRef) on symbolic args along every decision vector."""
     outcomes: List[Outcome] = []
     work: List[List[bool]] = [[]]
+    if getattr(Interp, "_modcache_repo", None) is not repo:
+        Interp._modcache = {}
+        Interp._modcache_repo = repo
     while work:
         dec = work.pop()
         it = Interp(repo)
-        Interp._modcache = {}
         it.decisions = dec
         if setup:
             setup(it)
